@@ -265,6 +265,19 @@ int main(int argc, char **argv)
 				const unsigned nm(m2->move_legal(t2.get()) + m2->Header()->move_legal(t2->Header()) + m2->Trailer()->move_legal(t2->Trailer()));
 				os << " moved=" << enc(t2.get());
 			}
+			else if (w.size() >= 3 && w[0] == "xcopy")		// xcopy <target msgtype hex> M=<source> items: copy_legal of the body into a fresh message of ANOTHER type
+			{
+				std::unique_ptr<Message> m(build(w, 2));
+				std::string tt; unhex(w[1], tt);
+				const BaseMsgEntry *bme(C()._bme.find_ptr(tt.c_str()));
+				if (!bme) os << "throw:InvalidMessage";
+				else
+				{
+					std::unique_ptr<Message> t(bme->_create._do(true));
+					m->copy_legal(t.get());
+					os << "xcopy=" << enc(t.get());
+				}
+			}
 			else if (w.size() == 3 && w[0] == "dclone")		// decode, re-encode, clone the decoded message, encode the clone
 			{
 				std::string raw; unhex(w[2], raw);
